@@ -26,8 +26,6 @@ type RaftTransport struct {
 	address     string
 	clusterConn *cluster.Conn
 
-	nodeClients   map[uint64]pb.RaftTransportClient
-	nodeClientsMu sync.RWMutex
 	groups        map[uuid.UUID]*RaftGroup
 	groupsMu      sync.RWMutex
 }
@@ -40,8 +38,6 @@ func NewTransport(nodeId uint64, address string, clusterConn *cluster.Conn) *Raf
 		address:     address,
 		clusterConn: clusterConn,
 
-		nodeClients:   make(map[uint64]pb.RaftTransportClient),
-		nodeClientsMu: sync.RWMutex{},
 		groups:        make(map[uuid.UUID]*RaftGroup),
 		groupsMu:      sync.RWMutex{},
 	}
@@ -120,12 +116,6 @@ func (this *RaftTransport) addNodeAddress(nodeId uint64, address string) {
 
 func (this *RaftTransport) removeNodeAddress(nodeId uint64) {
 	this.clusterConn.RemoveNode(nodeId)
-
-	// The client was built on the connection that was just closed. A node that
-	// joins again under the same id needs a new one.
-	this.nodeClientsMu.Lock()
-	delete(this.nodeClients, nodeId)
-	this.nodeClientsMu.Unlock()
 }
 
 func (this *RaftTransport) addGroup(group *RaftGroup) error {
@@ -164,21 +154,13 @@ func (this *RaftTransport) getGroup(id uuid.UUID) (*RaftGroup, error) {
 }
 
 func (this *RaftTransport) getNodeRaftTransportClient(nodeId uint64) (pb.RaftTransportClient, error) {
-	this.nodeClientsMu.RLock()
-	if client, exists := this.nodeClients[nodeId]; exists {
-		this.nodeClientsMu.RUnlock()
-		return client, nil
-	}
-	this.nodeClientsMu.RUnlock()
-
+	// The client is a thin wrapper: build it on whatever connection the cluster
+	// Conn holds now. Conn closes and replaces connections when a node is removed
+	// or moves (also when that is learned from a snapshot, which does not come
+	// through removeNodeAddress), a cached client would keep the closed one.
 	conn, err := this.clusterConn.Dial(nodeId)
 	if err != nil {
 		return nil, err
 	}
-
-	this.nodeClientsMu.Lock()
-	defer this.nodeClientsMu.Unlock()
-
-	this.nodeClients[nodeId] = pb.NewRaftTransportClient(conn)
-	return this.nodeClients[nodeId], nil
+	return pb.NewRaftTransportClient(conn), nil
 }
